@@ -443,6 +443,10 @@ class URL:
         if authority:
             user, password, _host, port = split_netloc(authority)
             _host = _encode_host(_host, validate_host=False) if _host else ""
+            if "[" in authority.rpartition("@")[2] and "[" not in _host:
+                # A bracketed host that is not an IPv6 address keeps its
+                # brackets, the same as when the URL is parsed from a string.
+                _host = f"[{_host}]"
         elif host:
             _host = _encode_host(host, validate_host=True)
         else:
